@@ -1,0 +1,43 @@
+//go:build verif
+
+// Contracts for the deductive verifier in /verif (govc), helper "gen" (C18, x/evm part). This file contains no code: with
+// the build tag off it is not part of the package, with it on it adds nothing to the build.
+package evm
+
+//@ import sdk "github.com/cosmos/cosmos-sdk/types"
+//@ import common "github.com/ethereum/go-ethereum/common"
+//@ import evmkeeper "github.com/EscanBE/evermint/v12/x/evm/keeper"
+//@ import evmtypes "github.com/EscanBE/evermint/v12/x/evm/types"
+
+// ---------------------------------------------------------------------------------------------
+// genesis.go ExportGenesis (C18). The x/evm view of ctx's layer is the content of the module store (key layout:
+// x/evm/types/verif_contracts_gen.go). The export is EXACTLY the code-hash index, in the order of the store's prefix
+// iterator, without the entries whose code hash is empty: with cnt(i) = evmExpCount(.., i) = the number of exported
+// entries before entry i,
+//     len(Accounts) == cnt(number of index entries)                                    (nothing else is exported)
+//     for every exported entry i:  Accounts[cnt(i)] is the account of entry i         (every contract, once, in order)
+//         .Address  the entry's address as text (common.Address.String)
+//         .Code     hex of the bytes stored under the entry's code hash ("" when there is no code record)
+//         .Storage  exactly the storage records of that address: as many as the store's iterator yields under
+//                   [2] ++ address, the m-th being (slot, value) of the m-th record, as 0x-hex text
+// IterateContracts (x/evm/keeper/statedb.go) has no callable contract in this check: its body is inlined and its loop
+// carries the invariants below ("loop 1 of IterateContracts"); the callback is the closure, known at the call.
+// ---------------------------------------------------------------------------------------------
+//@ ghost macro evmExpStorage(st evmtypes.Storage, has map[bytes]bool, val map[bytes]bytes, a common.Address) bool = len(st) == kvSeqLen(has, evmStoragePrefixB(a)) && (forall m int :: (0 <= m && m < len(st)) ==> (st[m].Key == hashOfBytes(kvSeqKey(has, evmStoragePrefixB(a), m)).String() && st[m].Value == hashOfBytes(val[kvSeqKey(has, evmStoragePrefixB(a), m)]).String()))
+
+//@ func ExportGenesis(ctx sdk.Context, k *evmkeeper.Keeper) (gs *evmtypes.GenesisState)
+//@   requires k != nil && k.storeKey != nil
+//@   modifies nothing
+//@   ensures[C18.evm_export_only_contracts] gs != nil && len(gs.Accounts) == evmExpCount(kvHas[kvId(layer(ctx), payload(k.storeKey))], kvVal[kvId(layer(ctx), payload(k.storeKey))], kvSeqLen(kvHas[kvId(layer(ctx), payload(k.storeKey))], b1(4)))
+//@   ensures[C18.evm_export_address_faithful] forall i int :: (0 <= i && i < kvSeqLen(kvHas[kvId(layer(ctx), payload(k.storeKey))], b1(4)) && evmIdxExported(kvHas[kvId(layer(ctx), payload(k.storeKey))], kvVal[kvId(layer(ctx), payload(k.storeKey))], i)) ==> (0 <= evmExpCount(kvHas[kvId(layer(ctx), payload(k.storeKey))], kvVal[kvId(layer(ctx), payload(k.storeKey))], i) && evmExpCount(kvHas[kvId(layer(ctx), payload(k.storeKey))], kvVal[kvId(layer(ctx), payload(k.storeKey))], i) < len(gs.Accounts) && gs.Accounts[evmExpCount(kvHas[kvId(layer(ctx), payload(k.storeKey))], kvVal[kvId(layer(ctx), payload(k.storeKey))], i)].Address == evmIdxAddr(kvHas[kvId(layer(ctx), payload(k.storeKey))], i).String())
+//@   ensures[C18.evm_export_code_faithful] forall i int :: (0 <= i && i < kvSeqLen(kvHas[kvId(layer(ctx), payload(k.storeKey))], b1(4)) && evmIdxExported(kvHas[kvId(layer(ctx), payload(k.storeKey))], kvVal[kvId(layer(ctx), payload(k.storeKey))], i)) ==> gs.Accounts[evmExpCount(kvHas[kvId(layer(ctx), payload(k.storeKey))], kvVal[kvId(layer(ctx), payload(k.storeKey))], i)].Code == hexEnc(evmCodeOf(kvHas[kvId(layer(ctx), payload(k.storeKey))], kvVal[kvId(layer(ctx), payload(k.storeKey))], evmIdxHash(kvHas[kvId(layer(ctx), payload(k.storeKey))], kvVal[kvId(layer(ctx), payload(k.storeKey))], i)))
+//@   ensures[C18.evm_export_storage_faithful] forall i int :: (0 <= i && i < kvSeqLen(kvHas[kvId(layer(ctx), payload(k.storeKey))], b1(4)) && evmIdxExported(kvHas[kvId(layer(ctx), payload(k.storeKey))], kvVal[kvId(layer(ctx), payload(k.storeKey))], i)) ==> evmExpStorage(gs.Accounts[evmExpCount(kvHas[kvId(layer(ctx), payload(k.storeKey))], kvVal[kvId(layer(ctx), payload(k.storeKey))], i)].Storage, kvHas[kvId(layer(ctx), payload(k.storeKey))], kvVal[kvId(layer(ctx), payload(k.storeKey))], evmIdxAddr(kvHas[kvId(layer(ctx), payload(k.storeKey))], i))
+//@   ensures[C18.evm_export_params] gs.Params.EvmDenom == evmDenomOf[layer(ctx)] && gs.Params.EnableCreate == evmEnableCreate[layer(ctx)] && gs.Params.EnableCall == evmEnableCall[layer(ctx)]
+//@   panics never
+//@ loop 1 of IterateContracts
+//@   fresh_writes
+//@   invariant iterator != nil && fresh(payload(iterator)) && itKv(payload(iterator)) == kvId(layer(ctx), payload(k.storeKey)) && itPrefix(payload(iterator)) == b1(4) && 0 <= itPos[payload(iterator)] && itPos[payload(iterator)] <= kvSeqLen(kvHas[kvId(layer(ctx), payload(k.storeKey))], b1(4))
+//@   invariant[C18.evm_export_only_contracts] len(ethGenAccounts) == evmExpCount(kvHas[kvId(layer(ctx), payload(k.storeKey))], kvVal[kvId(layer(ctx), payload(k.storeKey))], itPos[payload(iterator)]) && (cap(ethGenAccounts) == 0 || fresh(base(ethGenAccounts)))
+//@   invariant[C18.evm_export_address_faithful] forall i int :: (0 <= i && i < itPos[payload(iterator)] && evmIdxExported(kvHas[kvId(layer(ctx), payload(k.storeKey))], kvVal[kvId(layer(ctx), payload(k.storeKey))], i)) ==> (0 <= evmExpCount(kvHas[kvId(layer(ctx), payload(k.storeKey))], kvVal[kvId(layer(ctx), payload(k.storeKey))], i) && evmExpCount(kvHas[kvId(layer(ctx), payload(k.storeKey))], kvVal[kvId(layer(ctx), payload(k.storeKey))], i) < len(ethGenAccounts) && ethGenAccounts[evmExpCount(kvHas[kvId(layer(ctx), payload(k.storeKey))], kvVal[kvId(layer(ctx), payload(k.storeKey))], i)].Address == evmIdxAddr(kvHas[kvId(layer(ctx), payload(k.storeKey))], i).String())
+//@   invariant[C18.evm_export_code_faithful] forall i int :: (0 <= i && i < itPos[payload(iterator)] && evmIdxExported(kvHas[kvId(layer(ctx), payload(k.storeKey))], kvVal[kvId(layer(ctx), payload(k.storeKey))], i)) ==> ethGenAccounts[evmExpCount(kvHas[kvId(layer(ctx), payload(k.storeKey))], kvVal[kvId(layer(ctx), payload(k.storeKey))], i)].Code == hexEnc(evmCodeOf(kvHas[kvId(layer(ctx), payload(k.storeKey))], kvVal[kvId(layer(ctx), payload(k.storeKey))], evmIdxHash(kvHas[kvId(layer(ctx), payload(k.storeKey))], kvVal[kvId(layer(ctx), payload(k.storeKey))], i)))
+//@   invariant[C18.evm_export_storage_faithful] forall i int :: (0 <= i && i < itPos[payload(iterator)] && evmIdxExported(kvHas[kvId(layer(ctx), payload(k.storeKey))], kvVal[kvId(layer(ctx), payload(k.storeKey))], i)) ==> evmExpStorage(ethGenAccounts[evmExpCount(kvHas[kvId(layer(ctx), payload(k.storeKey))], kvVal[kvId(layer(ctx), payload(k.storeKey))], i)].Storage, kvHas[kvId(layer(ctx), payload(k.storeKey))], kvVal[kvId(layer(ctx), payload(k.storeKey))], evmIdxAddr(kvHas[kvId(layer(ctx), payload(k.storeKey))], i))
